@@ -181,7 +181,11 @@ def write_svg(matrix, matrix_size, out, colormap, scale=1, border=None, xmldecl=
     if omit_encoding:
         encoding = 'utf-8'
     allow_css3_colors = svgversion is not None and svgversion >= 2.0
-    is_multicolor = len(set(colormap.values())) > 2
+    # The cheap two-color path is sufficient iff all dark module types share a color
+    # and all light module types (incl. separator and quiet zone) share a color
+    is_uniform = len({clr for mt, clr in colormap.items() if mt >> 8}) < 2 \
+        and len({clr for mt, clr in colormap.items() if not mt >> 8}) < 2
+    is_multicolor = len(set(colormap.values())) > 2 or not is_uniform
     need_background = not is_multicolor and colormap[consts.TYPE_QUIET_ZONE] is not None and not draw_transparent
     need_svg_group = scale != 1 and (need_background or is_multicolor)
     if is_multicolor:
